@@ -127,6 +127,18 @@ func run(c hx.Config) error {
 						emit(s, nv, "corruptN")
 					}
 				}
+				// an object with a .Required(...) call: every field dropped in turn
+				if mv, ok := v.(map[string]any); ok && s.Kind == "object" && s.ReqCall != nil {
+					for _, f := range s.Fields {
+						c := map[string]any{}
+						for a, b := range mv {
+							if a != f {
+								c[a] = b
+							}
+						}
+						emit(s, c, "req-drop")
+					}
+				}
 				// an exact-optional field given explicitly as nil
 				if mv, ok := v.(map[string]any); ok && s.Kind == "object" {
 					for i, f := range s.Fields {
